@@ -18,11 +18,12 @@ for fk in range(3):
                 fc.append((fk, fi, 2, off, swap))
 far = [(fk, fi, 3, off, swap) for fk in range(3) for fi in range(NF) if not (fk == 0 and fi not in SINGLE) for off in range(11) for swap in (0, 1)]
 farq = [c for c in far if c[1] in (6, 9, 12, 3) and c[3] in (0, 1, 9) and c[0] != 2 and (c[4] == 0 or c[3] == 0)]
-fc = fc + far
-fcq = farq + [c for c in fc if c[2] == 0 and c[4] == 0 and c[1] in (0, 3, 5, 6, 9, 12, 14)] + [c for c in fc if c[2] == 1 and c[0] == 1 and c[1] in (6, 9, 12) and c[4] == 1] + [(1, 3, 2, 0, 0), (2, 12, 2, 0, 0), (2, 12, 1, 1, 1), (0, 17, 1, 0, 0)]
+longonly = [(2, fi, ik, off, swap) for fi in (20, 21, 22, 23) for (ik, offs) in ((1, (-1, 0, 1)), (2, (-1, 0)), (0, (0,))) for off in offs for swap in (0, 1)]
+fc = fc + far + longonly
+fcq = farq + [c for c in longonly if c[1] in (20, 21) and c[4] == 0] + [c for c in fc if c[2] == 0 and c[4] == 0 and c[1] in (0, 3, 5, 6, 9, 12, 14)] + [c for c in fc if c[2] == 1 and c[0] == 1 and c[1] in (6, 9, 12) and c[4] == 1] + [(1, 3, 2, 0, 0), (2, 12, 2, 0, 0), (2, 12, 1, 1, 1), (0, 17, 1, 0, 0)]
 o = {k: v for k, v in base.items() if k not in ("cases", "note", "id", "entry", "carves", "int_mode")}
 o.update({"id": "C05.x.floatcmp", "entry": "VerifC05XFloatCmp", "cases": {"quick": [list(c) for c in fcq], "thorough": [list(c) for c in fc]},
           "reach": ["called"], "carves": ["C05-compare-rational-with-float-rounds"],
-          "note": "= /= < <= > >= between a rational and a float, both argument orders: exactly one of < = > holds, = agrees with mathematical equality, /= is its negation, every comparison agrees with the exact values (oracle: the float's exact value m*2^e as an integer fraction, compared by cross multiplication). The float is concrete from a grid of 20 values adjacent to 2^24, 2^53, 2^63, -2^63, 2^64 plus 0, 0.5, -1.5 (floats are concrete in the engine) in single, double and long-float (128 bit) format: bounded enumeration executed by the engine on that side. The rational is a fixnum within +-2 of the float's value (window enumerated by engine forks, clamped to the fixnum range), or the concrete integer trunc(f)+{-1,0,1} (bignum beyond 2^63), or the concrete ratio trunc(f)+{-1,0}+1/2, or one of 11 boundary fixnums (most-negative/most-positive-fixnum, 0, +-1, +-2^62, +-2^31, +-(2^53+1)) far away from the float."})
+          "note": "= /= < <= > >= between a rational and a float, both argument orders: exactly one of < = > holds, = agrees with mathematical equality, /= is its negation, every comparison agrees with the exact values (oracle: the float's exact value m*2^e as an integer fraction, compared by cross multiplication). The float is concrete from a grid of 20 values adjacent to 2^24, 2^53, 2^63, -2^63, 2^64 plus 0, 0.5, -1.5 (floats are concrete in the engine) in single, double and long-float (128 bit) format: bounded enumeration executed by the engine on that side. The rational is a fixnum within +-2 of the float's value (window enumerated by engine forks, clamped to the fixnum range), or the concrete integer trunc(f)+{-1,0,1} (bignum beyond 2^63), or the concrete ratio trunc(f)+{-1,0}+1/2, or one of 11 boundary fixnums (most-negative/most-positive-fixnum, 0, +-1, +-2^62, +-2^31, +-(2^53+1)) far away from the float. Four long-float-only grid values need more than 53 significant bits (2^64+1, 2^53+1, -2^64+1, 3*2^70+1)."})
 json.dump([o], open(os.path.join(HERE, "C05.float.json"), "w"), indent=1)
 print(len(fcq), len(fc))
